@@ -144,17 +144,14 @@ func substituteBackendParams(template string, groups []string) string {
 		return template
 	}
 
-	result := template
-	// Replace $1, $2, etc. with captured groups
-	// We need to handle this carefully to avoid replacing $10 when we mean $1
-	// Process from highest index to lowest to avoid partial replacements
+	// Replace $1, $2, etc. with captured groups in a single pass, so that text
+	// substituted for one parameter is never scanned for parameters again.
+	// Higher indices take priority to avoid reading $10 as $1 followed by "0".
+	pairs := make([]string, 0, 2*len(groups))
 	for i := len(groups); i >= 1; i-- {
-		param := fmt.Sprintf("$%d", i)
-		if i-1 < len(groups) {
-			result = strings.ReplaceAll(result, param, groups[i-1])
-		}
+		pairs = append(pairs, fmt.Sprintf("$%d", i), groups[i-1])
 	}
-	return result
+	return strings.NewReplacer(pairs...).Replace(template)
 }
 
 func findRoute(
